@@ -106,4 +106,26 @@ theorem instance_query :
     (by simpa [tree, Model.BM.Tree.s, Model.BM.Tree.e] using hl) hf hfind
   exact ⟨_, X, hfind, rfl, hX, hv⟩
 
+/-- the queries `[0, 1/3]` and `[1/3, 1]` of this tree: the `U` of the first and the `W` of the second are uncorrelated - from
+`queries_uncorrelated`. -/
+theorem instance_independent :
+    ∃ X1 X2, C03Model.sumW (vecOps Real.sqrt nz) ((ψU (1 / 3 : ℝ)).app (R := RV)) (Real.sqrt 1 • xi false, Real.sqrt (1 / 12) • xi true) tree []
+        [[false]] = some X1 ∧
+      C03Model.sumW (vecOps Real.sqrt nz) ((ψW (K := ℝ)).app (R := RV)) (Real.sqrt 1 • xi false, Real.sqrt (1 / 12) • xi true) tree []
+        [[true]] = some X2 ∧ cov.ip X1 X2 = 0 := by
+  obtain ⟨hl, hf⟩ := root_law (T := 1) Real.sqrt cov nz sqrt_ok (xi0 := xi false) (xi1 := xi true) (by norm_num)
+    (by show dot _ _ = 1; unfold xi; rw [dot_single]; simp)
+    (by show dot _ _ = 1; unfold xi; rw [dot_single]; simp)
+    (by show dot _ _ = 0; unfold xi; rw [dot_single]; simp)
+    (fun q b => by show dot _ _ = 0; unfold xi nz; rw [dot_single]; simp)
+    (fun q b => by show dot _ _ = 0; unfold xi nz; rw [dot_single]; simp) 0 1 (by norm_num)
+  have f1 : find tree 0 (1 / 3) = some [[false]] := by simp only [tree, find]; norm_num
+  have f2 : find tree (1 / 3) 1 = some [[true]] := by simp only [tree, find]; norm_num
+  refine ⟨_, _, by simp only [tree, C03Model.sumW, valueAt, Model.BM.Tree.get?]; rfl,
+    by simp only [tree, C03Model.sumW, valueAt, Model.BM.Tree.get?]; rfl, ?_⟩
+  exact queries_uncorrelated (c := cfg) Real.sqrt cov nz sqrt_ok noiseON tree_wf
+    (by simpa [tree, Model.BM.Tree.s, Model.BM.Tree.e] using hl) hf (ψU (1 / 3)) ψW (le_refl (1 / 3 : ℝ)) f1 f2
+    (by simp only [tree, C03Model.sumW, valueAt, Model.BM.Tree.get?]; rfl)
+    (by simp only [tree, C03Model.sumW, valueAt, Model.BM.Tree.get?]; rfl)
+
 end C04ModelEx
